@@ -22,11 +22,14 @@ def h(obj: Any) -> str:
 
 
 def load_findings(prop: str) -> List[dict]:
-    if not os.path.exists(FINDINGS_FILE):
-        return []
-    with open(FINDINGS_FILE) as fh:
-        data = json.load(fh)
-    return [f for f in data.get("findings", []) if f.get("property") == prop and f.get("status", "open") == "open"]
+    out: List[dict] = []
+    for fn in (FINDINGS_FILE, os.environ.get("VF_FINDINGS")):
+        if fn and os.path.exists(fn):
+            with open(fn) as fh:
+                data = json.load(fh)
+            items = data.get("findings", []) if isinstance(data, dict) else data
+            out += [f for f in items if f.get("property") == prop and f.get("status", "open") == "open"]
+    return out
 
 
 def _match(entry: dict, sig: Dict[str, Any]) -> bool:
